@@ -140,6 +140,7 @@ let do_judge (t : string list) : string =
     let made = List.combine all m in
     let by_make = List.filter_map (fun (mv, r) -> if r <> "I" then Some mv else None) made in
     List.iter (fun mv -> if not (move_fits g mv) then add ("C04:move-does-not-fit:" ^ move_fields mv)) (all @ q);
+    List.iter (fun mv -> if not (nkc_b g mv) then add ("C02:king-capture:" ^ move_fields mv)) (all @ q);
     if by_filter <> by_make then add "C01:legality-paths-differ";
     if not (mon_legal_set g by_filter) then add "C01:legal-set(filter)";
     if not (mon_legal_set g by_make) then add "C01:legal-set(make)";
